@@ -14,7 +14,8 @@ NUMERIC = {  # method -> (BuiltInFunction variant, receiver kinds, extra argumen
     "fpart": ("FloatFPart", ["Float"], None), "ipart": ("FloatIPart", ["Float"], None), "round": ("FloatRound", ["Float"], None),
     "floor": ("FloatFloor", ["Float"], None), "ceil": ("FloatCeil", ["Float"], None),
 }
-POW_EXPONENTS = list(range(0, models.POW_MAX_EXP + 1))
+# 0..8 by stepwise multiplication; 63 .. 128 by the exact table of the few bases whose power is representable (models.pow_table)
+POW_EXPONENTS = list(range(0, models.POW_MAX_EXP + 1)) + [63, 64, 126, 127, 128]
 
 
 PARSERS = {  # string -> number parsers: method -> (extra argument kind, kind of the present result)
@@ -235,7 +236,7 @@ def oracle(method, kinds, inputs, exponent=None):
             return _o("BigInt", {"negative-exponent": T}, z3.BitVecVal(0, 128))
         # exact power in the declared result kind (bigint): widen the receiver first, then multiply step by step
         x = int_to_int(KTY[k], a.e, "i128")
-        res, ovf = models.pow_stepwise("i128", x, exponent)
+        res, ovf = models.pow_stepwise("i128", x, exponent) if exponent <= models.POW_MAX_EXP else models.pow_table("i128", x, exponent)
         return _o("BigInt", {"overflow": ovf}, res)
     x = a.e
     if method == "fpart":
